@@ -1,7 +1,7 @@
 """c07_faults.py -- C07, second stream: document-level "construct x fault" matrix.
 
 For every place where the interpreter evaluates an expression or executes content (SITES, COND_SITES, DATA_SITES,
-INVOKE_SITES, DONEDATA_SITES, the block kinds KINDS) and every fault kind of the datamodel (VAL / LOC / ...), a small
+INVOKE_SITES, DONEDATA_SITES, CHILD_INIT = <data> of an invoked session initialised from the invocation, the block kinds KINDS) and every fault kind of the datamodel (VAL / LOC / ...), a small
 document is generated in which
   * a marker <raise event="pre"/> precedes the faulty element (must be processed: nothing is undone),
   * a marker <raise event="after"/> follows it in the same block (must NOT be processed: the rest of the block is skipped),
@@ -304,6 +304,59 @@ def make_doc(site, kind, dm, fname, text, control=False, bare=False):
             'final': 'any' if bare else 'FINISHED', 'threaded': threaded(site, kind), 'bare': bare}
 
 
+# ------------------------------------------------------------------ <data> of an invoked session initialised from the invocation
+
+# values handed over with <invoke> (<param> / namelist) that the CHILD's datamodel rejects when InterpreterImpl::initData
+# initialises the child's <data> element of that name: (fault, child datamodel, child <data> attributes, name, value
+# expression per parent datamodel or None = that parent cannot produce it)
+CHILD_INIT = [
+    ('child-array-gets-scalar', 'promela', ' type="int[2]"', 'Cv', {'lua': '7', 'promela': '7'}),
+    ('child-system-variable', 'promela', ' type="int"', '_name', {'lua': '7', 'promela': '7'}),
+    ('child-nan', 'lua', '', 'Cv', {'lua': '0/0'}),
+    ('child-system-variable', 'lua', '', '_name', {'lua': '7'}),
+]
+CHILD_INIT_CONTROL = [('promela', ' type="int"', 'Cv', {'lua': '7', 'promela': '7'}), ('lua', '', 'Cv', {'lua': '7'})]
+CHILD_ERR = 'error.execution.child'     # the child reports its error.execution to the parent under this name
+
+
+def child_init_doc(pdm, cdm, attrs, name, value, via, fault, control=False, bare=False):
+    """parent (datamodel pdm) invokes a child (cdm) whose <data id=name> is initialised from the invocation; the child
+    tells the parent about an error.execution it processes and, in its next state, that it goes on"""
+    child = ('<scxml %s datamodel="%s"><datamodel><data id="%s"%s/></datamodel><state id="c1"><onentry><raise event="go"/></onentry>'
+             '<transition event="error.execution" target="c2"><send target="#_parent" event="%s"/></transition>'
+             '<transition event="go" target="c2"/></state>'
+             '<state id="c2"><onentry><send target="#_parent" event="childnext"/></onentry></state></scxml>' % (NS, cdm, name, attrs, CHILD_ERR))
+    extra = ''
+    if via == 'param':
+        inv = '<invoke type="scxml" id="i1"><param name="%s" expr="%s"/><content>%s</content></invoke>' % (name, esc(value), child)
+    else:
+        inv = '<invoke type="scxml" id="i1" namelist="%s"><content>%s</content></invoke>' % (name, child)
+        if not name.startswith('_'):      # the parent's variable of that name carries the value (a system variable has its own)
+            extra = '<data id="%s"%s expr="%s"/>' % (name, typ(pdm), esc(value))
+    body = '<state id="s1">%s<transition event="childnext" target="s2"/></state><state id="s2">%s</state>' % (
+        inv, '' if bare else '<onentry><raise event="next"/></onentry>')
+    must = (['childnext'] if control else ['ERR', 'childnext']) + ([] if bare else ['next'])
+    return {'site': 'invoke-data-init', 'kind': 'invoke-data-init', 'dm': cdm, 'pdm': pdm, 'via': via,
+            'fault': 'control' if control else fault, 'text': '%s parent, %s %s=%s' % (pdm, via, name, value), 'control': control,
+            'xml': ('<scxml %s datamodel="%s" name="m">%s%s</scxml>' % (NS, pdm, ('<datamodel>%s</datamodel>' % extra) if extra else '', body))
+            if bare else wrap(pdm, body, bare, extra_data=extra), 'items': ['~childnext'] + ([] if bare else ['z']), 'must': must, 'mustnot': [],
+            'errs': [CHILD_ERR], 'final': 'any' if bare else 'FINISHED', 'threaded': True, 'bare': bare,
+            'args': (pdm, cdm, attrs, name, value, via, fault)}
+
+
+def child_init_docs():
+    out = []
+    for fault, cdm, attrs, name, values in CHILD_INIT:
+        for pdm, value in sorted(values.items()):
+            for via in ('param', 'namelist'):
+                out.append(child_init_doc(pdm, cdm, attrs, name, value, via, fault))
+    for cdm, attrs, name, values in CHILD_INIT_CONTROL:
+        for pdm, value in sorted(values.items()):
+            for via in ('param', 'namelist'):
+                out.append(child_init_doc(pdm, cdm, attrs, name, value, via, 'control', control=True))
+    return out
+
+
 def corpus_docs():
     """the hand-confirmed witnesses (corpus/c07.json): they run first"""
     p = os.path.join(os.path.dirname(os.path.dirname(os.path.abspath(__file__))), 'corpus', 'c07.json')
@@ -336,7 +389,7 @@ def gen_docs(tier):
                 docs.append(make_doc(site, site, dm, fname, text))
             if ctl is not None:
                 docs.append(make_doc(site, site, dm, 'control', ctl, control=True))
-    return docs
+    return docs + child_init_docs()
 
 
 # ------------------------------------------------------------------ running
@@ -492,6 +545,8 @@ def judge(d, ans):
 
 def group(site):
     """sites that share the code that handles their errors"""
+    if site == 'invoke-data-init':      # InterpreterImpl::initData of the invoked session, not the parent's <invoke>
+        return site
     if site.startswith('invoke-'):
         return 'invoke'
     if site in ('foreach-item', 'foreach-index'):
@@ -544,7 +599,8 @@ def shrink(vd, docs, members):
     eng, i, sym, det = min(members, key=lambda m: (len(docs[m[1]]['xml']), ENGINES.index(m[0])))
     d = docs[i]
     if sym in ('exception', 'crash') and not d.get('corpus') and not d['control']:
-        b = make_doc(d['site'], d['kind'], d['dm'], d['fault'], d['text'], bare=True)
+        b = child_init_doc(*d['args'], bare=True) if d['site'] == 'invoke-data-init' else \
+            make_doc(d['site'], d['kind'], d['dm'], d['fault'], d['text'], bare=True)
         a = run_docs(vd, [b], engines=(eng,))[(eng, 0)]
         v = judge(b, a)
         if v and v[0][0] == sym:
@@ -589,7 +645,8 @@ def run_stream(vd, tier, coqdir=None, workdir=None):
     if coqdir:
         switches, ncmp, dis = model_correspondence(docs, res, verdicts, coqdir, workdir)
         model = {'compared': ncmp, 'disagreements': len(dis), 'variant': switches}
-        for eng, i, p, o in sorted(dis, key=lambda x: len(docs[x[1]]['xml']))[:3]:
+        # a disagreement in a run the oracle rejects is reported through its class; the others are findings of their own
+        for eng, i, p, o in sorted([x for x in dis if not verdicts[(x[0], x[1])]], key=lambda x: len(docs[x[1]]['xml']))[:2]:
             d = docs[i]
             mdis.append({'class': 'model-disagreement', 'count': len(dis), 'engine': eng, 'site': d['site'], 'block': d['kind'],
                          'datamodel': d['dm'], 'fault': d['fault'], 'document': d['xml'], 'items': d['items'],
@@ -644,6 +701,8 @@ def model_term(d):
         return '[ADone ev_x [%s] None; ADequeueInt; ADequeueInt]' % r
     if site == 'donedata-content-expr':
         return '[ADone ev_x [] (Some %s); ADequeueInt; ADequeueInt]' % r
+    if site == 'invoke-data-init':
+        return '[ADataInit %s]' % ('(VOk 1)' if d['control'] else 'VRuntime')
     if site == 'invoke-type':
         return '[AInvoke 1 [] %s]' % ('true' if d['control'] else 'false')
     if site.startswith('invoke-'):
